@@ -104,7 +104,7 @@ CHECKS = {
             "twice: repeated one-iteration solves ('fix' initialisation) and a sys.monitoring trace of every iteration inside one solve; "
             "the two routes must agree.  The stream-selecting wrappers (greedy stream reduction, brute force over stream combinations) "
             "are driven on small channels: whatever they settle on, the wrapped solver must hold a valid solution at the requested power.",
-            "MMSE Lagrange-multiplier RuntimeError is tallied as a decline; MaxSINR/MMSE only with noise > 0; leakage increase allowed 1e-9 relative + 1e-12 of the initial unfiltered interference; the svd initialisation only for Nr = Nt.",
+            "MMSE Lagrange-multiplier RuntimeError is tallied as a decline; MaxSINR/MMSE only with noise > 0; leakage increase allowed 1e-9 relative + 1e-12 of the initial unfiltered interference.",
             "property-relation monitor after every setter + black-box and sys.monitoring trace observation of the iteration cost",
             "DESIGN.md §5 C10"),
     "C18": ("exploration",
